@@ -357,6 +357,8 @@ class TreeGen:
         if c == "D":
             return ("i", r.randrange(0, 12))
         if c == "b":
+            if tag in (self.t["FOAM_Char"], self.t["FOAM_Byte"]) and r.random() < 0.3:
+                return ("i", r.choice([128, 200, 233, 255]))      # e.g. (Char 233) as the folder builds it
             return ("i", self.pick_int("b"))
         if c == "h":
             return ("i", self.pick_int("h"))
@@ -928,7 +930,12 @@ def compare_c(a_text, b_text, allow_sint):
                 if val is not None and val == wrap64(-_c_int(a[i + 1])) and not is_int32(val):
                     i, j = i + 2, k + 1
                     continue
-            out.append(("integer-literal" if (v is not None or _c_int(b[j]) is not None) else "other", ctx))
+            cls = "integer-literal" if (v is not None or _c_int(b[j]) is not None) else "other"
+            if cls == "integer-literal":
+                k0 = i - 1 if (i > 0 and a[i - 1] == "-") else i
+                cast = a[k0 - 2] if (k0 >= 3 and a[k0 - 1] == ")" and a[k0 - 3] == "(") else ""
+                cls += "@" + re.sub(r"[^A-Za-z0-9]", "", cast)[:12]
+            out.append((cls, ctx))
             return out
         if i < len(a) or j < len(b):
             out.append(("other", "one output is a prefix of the other"))
@@ -1025,6 +1032,12 @@ def compare_sx(a_text, b_text, kind, allow_sint):
             return
         cls = "integer-literal" if (_sx_eval(x, kind) is not None or _sx_eval(y, kind) is not None
                                     or (isinstance(x, str) and re.match(r"^-?\d+$", x))) else "other"
+        if cls == "integer-literal":
+            # which kind of constant: the innermost constructor the literal sits in
+            head = x[0] if (isinstance(x, list) and x and isinstance(x[0], str)) else (path[-1] if path else "")
+            if kind == "lsp" and isinstance(x, list) and len(x) == 3 and x[0] == "the":
+                head = x[1]
+            cls += "@" + re.sub(r"[^A-Za-z0-9]", "", str(head))[:12]
         out.append((cls, "%s: %s  ///  %s" % ("/".join(path[-4:]), str(x)[:120], str(y)[:120])))
     if len(a) != len(b):
         out.append(("other", "different number of top-level forms"))
@@ -1232,6 +1245,29 @@ def prog_big_const():
             "import from FooB;\nstdout << bi0() << newline << bi1() << newline;\n" % (n, n >> 3000))
 
 
+def prog_sint_text():
+    """machine integers at the edges of every representation, through every route (regression item
+    for the .fm reader, which once mangled values beyond an immediate big integer)"""
+    vals = [9223372036854775807, 4611686018427387904, 4611686018427387903, 2305843009213693952, 1152921504606846976,
+            4294967296, 2147483648, 2147483647, 6442450944]
+    L = ['#include "aldor"', '#include "aldorio"', "import from MachineInteger;", "FooS: with {"]
+    L += ["  c%d: () -> MachineInteger; d%d: () -> MachineInteger;" % (i, i) for i in range(len(vals))]
+    L += ["  cmin: () -> MachineInteger;", "} == add {"]
+    for i, v in enumerate(vals):
+        L.append("  c%d(): MachineInteger == %d;" % (i, v))
+        L.append("  d%d(): MachineInteger == 0 - %d;" % (i, v))
+    L += ["  cmin(): MachineInteger == -9223372036854775807 - 1;", "}", "import from FooS;"]
+    for i in range(len(vals)):
+        L.append("stdout << c%d() << \" \" << d%d() << newline;" % (i, i))
+    L.append("stdout << cmin() << newline;")
+    return "\n".join(L) + "\n"
+
+
+def prog_high_char():
+    return ('#include "aldor"\n#include "aldorio"\nimport from Character, String, MachineInteger;\n'
+            'c: Character == char 233;\nstdout << ord c << newline;\n')
+
+
 def stage_e2e(rep, tier, info):
     exe = C.build_compiler()
     work = C.scratch("c05e2e")
@@ -1252,6 +1288,9 @@ def stage_e2e(rep, tier, info):
             jobs.append(("routes", os.path.basename(f)[:-3], open(f, errors="replace").read(), q, "-lfoamlib"))
     jobs.append(("routes-norun", "manyfmt", prog_many_formats(), "-Q0", None, "e2e:ao:Prog-format-index>255"))
     jobs.append(("routes-norun", "bigconst", prog_big_const(), "-Q2", None, "e2e:ao:BInt-constant-256..510-places"))
+    for q in levels:
+        jobs.append(("routes", "sintext", prog_sint_text(), q, "-laldor"))
+    jobs.append(("routes", "highchar", prog_high_char(), "-Q2", "-laldor", "e2e:ao:Char-constant-above-127"))
     st = {"programs_generated": len(progs), "programs_corpus": 0, "compiled": 0, "skipped_not_compiling": []}
 
     def one(j):
@@ -1270,6 +1309,9 @@ def stage_e2e(rep, tier, info):
                 st["compiled"] += 1
                 if j[4] == "-lfoamlib":
                     done_corpus.add(j[1])
+    if st["compiled"] == 0:
+        rep.violation("end-to-end: not one generated or corpus program compiles from source with the rebuilt compiler",
+                      {"kind": "e2e-none", "jobs": len(jobs)}, no_input=True)
     st["programs_corpus"] = len(done_corpus)
     st["skipped_not_compiling"] = sorted(set(s[:-3] for s in st["skipped_not_compiling"]))[:20]
     st["compiler_runs"] = e.runs
